@@ -409,7 +409,8 @@ def check_value(T, t, value, cd=None):
         o = v.to_python_object(lazy_diff=None)
     except Exception as e:
         return [(classify(T, t, value, D_TOPY_ERR), f'type={t} value={value} {err(e)}')], 'to_python_object raises', None
-    _, _, label = obj_profile(o)
+    inferred, nested, label = obj_profile(o)
+    label = f'{t["prim"]} -> {label}{"+inferred-name" if inferred else ""}{"+nested" if nested else ""}'
     try:
         back = mich(T.from_python_object(o))
         if back != m:
@@ -612,7 +613,7 @@ def check_call(t, e, a):
             out.append((D_CE_ERR, f'type={t} e={e} a={a}: decode differs from from_parameters(...).to_python_object()'))
     except Exception as ex:
         return [(D_CE_ERR, f'type={t} decode e={e} a={a} {err(ex)}')], 'decode raises', None
-    label = 'obj:' + obj_profile(d)[2]
+    label = f'call {"leaf" if annotated_leaf else "unannotated-leaf"} -> obj:{obj_profile(d)[2]}{"+inferred-name" if obj_profile(d)[0] else ""}'
     # (a) ParameterSection level
     try:
         back = P.from_python_object(d).to_micheline_value(mode='readable')
